@@ -17,6 +17,16 @@
 //!   payload with the envelope digest recomputed) — the import must be a typed error or an import
 //!   equal to the honest one, never `Ok` with different records;
 //! * an export of history A is never accepted against the root of history B.
+//!
+//! Isolation.  Tampered material is decoded by code that may abort the process (an allocation
+//! sized from a declared count, a stack overflow).  Every fault is therefore evaluated in a
+//! single-threaded CHILD process of this binary (`C20_UNIT` set) running under an address-space
+//! limit, which prints `B <seq> <fault>` before each fault and one summary line at the end.  The
+//! parent runs the children of all units in parallel, and when a child dies it attributes the
+//! death to the fault that was in flight, records it as a violation (an abort is not a typed
+//! obstruction) and re-runs the unit with that fault skipped.  A recording global allocator
+//! additionally reports any single allocation request above 64 MiB made while a fault was being
+//! evaluated (inputs are a few KiB).
 
 use crate::cas::Witnesses;
 use echo_cas::{
@@ -25,8 +35,10 @@ use echo_cas::{
 };
 use mc::{json, Report, Value};
 use rayon::prelude::*;
-use std::collections::BTreeMap;
+use std::cell::{Cell, RefCell};
+use std::collections::{BTreeMap, BTreeSet};
 use std::path::{Path, PathBuf};
+use std::sync::atomic::{AtomicUsize, Ordering};
 use warp_core::causal_wal::{
     build_recovery_certificate, build_retained_reading_transaction,
     build_submission_acceptance_transaction, build_tick_transaction, canonical_segment_path,
@@ -562,28 +574,136 @@ impl Profile {
     }
 }
 
-/// Shared context of one history job.
-struct Ctx<'a> {
-    r: &'a Report,
-    wit: &'a Witnesses,
-    hist_index: usize,
-    hist: String,
+/// Largest single allocation request since the last reset (child process only; see `main.rs`).
+pub static MAX_ALLOC_REQUEST: AtomicUsize = AtomicUsize::new(0);
+const ALLOC_ALARM: usize = 64 << 20;
+
+/// Everything a child reports back (one JSON line).
+#[derive(Default)]
+struct Tally {
+    evals: u64,
+    outcomes: BTreeMap<String, u64>,
+    counters: BTreeMap<String, u64>,
+    violations: Vec<(String, String, Value)>,
+    machinery: Vec<String>,
+    guards: BTreeMap<String, bool>,
+    sample: Value,
+    exports_ok: u64,
 }
 
-impl Ctx<'_> {
+/// Context of one unit running in a child process (single-threaded).
+struct Ctx {
+    hist: String,
+    skip: BTreeSet<u64>,
+    seq: Cell<u64>,
+    tally: RefCell<Tally>,
+}
+
+#[derive(Clone, Copy, PartialEq, Eq)]
+enum Oracle {
+    /// withheld / corrupted referenced material: the import must be a typed error
+    MustRefuse,
+    /// arbitrary envelope damage: typed error, or an import equal to the honest one
+    ErrOrSame,
+}
+
+/// What one fault evaluation produced.
+enum Got {
+    /// typed refusal before the import (exporter / envelope re-wrap / envelope decode)
+    Stage(String),
+    Import(Verdict),
+    Machinery(String),
+}
+
+impl Ctx {
+    fn eval(&self, n: u64) {
+        self.tally.borrow_mut().evals += n;
+    }
     fn outcome(&self, profile: Profile, fault: &str, result: &str) {
-        self.r.outcome(&format!("wsc/{}/{fault}→{result}", profile.name()));
+        *self
+            .tally
+            .borrow_mut()
+            .outcomes
+            .entry(format!("wsc/{}/{fault}→{result}", profile.name()))
+            .or_insert(0) += 1;
+    }
+    fn counter(&self, name: &str, n: u64) {
+        *self.tally.borrow_mut().counters.entry(name.to_string()).or_insert(0) += n;
+    }
+    fn machinery(&self, msg: &str) {
+        let mut t = self.tally.borrow_mut();
+        if t.machinery.len() < 8 {
+            t.machinery.push(format!("wsc [{}]: {msg}", self.hist));
+        }
+    }
+    fn guard(&self, name: &str, ok: bool) {
+        let mut t = self.tally.borrow_mut();
+        let e = t.guards.entry(name.to_string()).or_insert(true);
+        *e = *e && ok;
     }
     fn violation(&self, sig: String, fault: Value, extra: Value) {
-        let order = (self.hist_index as u64, format!("{fault}"));
-        self.wit.add_keyed(
+        let order = format!("{fault}");
+        self.tally.borrow_mut().violations.push((
             sig,
             order,
             json!({
                 "case": {"part": "wsc", "history": self.hist, "fault": fault},
                 "observed": extra,
             }),
-        );
+        ));
+    }
+
+    /// Evaluate one fault: announce it (so the parent can attribute a process death), run it,
+    /// apply the oracle.
+    fn fault(&self, profile: Profile, kind: &str, oracle: Oracle, fault: Value, f: impl FnOnce() -> Got) {
+        let seq = self.seq.get();
+        self.seq.set(seq + 1);
+        if self.skip.contains(&seq) {
+            // a previous child died here; the parent has recorded the violation
+            self.outcome(profile, kind, "PROCESS-ABORTED");
+            return;
+        }
+        println!("B\t{seq}\t{}\t{kind}\t{fault}", profile.name());
+        MAX_ALLOC_REQUEST.store(0, Ordering::Relaxed);
+        let got = f();
+        let req = MAX_ALLOC_REQUEST.load(Ordering::Relaxed);
+        self.eval(1);
+        if req > ALLOC_ALARM {
+            self.outcome(profile, kind, "ALLOCATION-REQUEST-OVER-64MiB");
+            self.violation(
+                format!("wsc:{}:{kind}-unbounded-allocation:request-over-64MiB", profile.name()),
+                fault.clone(),
+                json!({"largest_single_allocation_request_bytes": req}),
+            );
+        }
+        match got {
+            Got::Machinery(m) => self.machinery(&m),
+            Got::Stage(s) => self.outcome(profile, &format!("{kind}@before-import"), &s),
+            Got::Import(Verdict::Err(k)) => {
+                if oracle == Oracle::MustRefuse {
+                    self.counter(&format!("wsc-refused/{}/{kind}", profile.name()), 1);
+                }
+                self.outcome(profile, kind, &format!("import-Err:{k}"));
+            }
+            Got::Import(Verdict::Same) if oracle == Oracle::ErrOrSame => {
+                self.outcome(profile, kind, "import-Ok-identical");
+            }
+            Got::Import(v) => {
+                let (how, text) = match v {
+                    Verdict::Different(d) => ("different-import", format!("import Ok with different content: {d}")),
+                    _ => (
+                        "identical-import",
+                        "import Ok and equal to the honest import although the referenced material is missing/corrupt".to_string(),
+                    ),
+                };
+                self.outcome(profile, kind, &format!("ACCEPTED-{how}"));
+                let sig = match oracle {
+                    Oracle::MustRefuse => format!("wsc:{}:{kind}-accepted", profile.name()),
+                    Oracle::ErrOrSame => format!("wsc:{}:{kind}-import-ok-with-different-records", profile.name()),
+                };
+                self.violation(sig, fault, json!(text));
+            }
+        }
     }
 }
 
@@ -633,7 +753,7 @@ fn find_sub(hay: &[u8], needle: &[u8]) -> Option<usize> {
 
 // envelope accessors ----------------------------------------------------------------------------
 
-trait Export: Clone + Sync {
+trait Export: Clone {
     fn names() -> &'static [&'static str];
     fn env(&self, i: usize) -> &WscStoreEnvelope;
     fn set_env(&mut self, i: usize, e: WscStoreEnvelope);
@@ -729,108 +849,104 @@ impl Export for WscCasAddressedWalExport {
     }
 }
 
-/// Flip every byte of every envelope, (a) in the encoded form, (b) in the WSC payload with the
+/// Flip every byte of envelope `ei`, (a) in the encoded form, (b) in the WSC payload with the
 /// envelope digest recomputed (`WscStoreEnvelope::validated`).  Oracle: typed error, or an import
 /// equal to the honest one.
 fn envelope_flips<X: Export>(
     cx: &Ctx,
     profile: Profile,
     export: &X,
+    ei: usize,
     bits: &[u8],
-    validate: &(dyn Fn(&X) -> Verdict + Sync),
+    validate: &dyn Fn(&X) -> Verdict,
 ) {
-    for (ei, name) in X::names().iter().enumerate() {
-        let env = export.env(ei).clone();
-        let encoded = env.encode();
-        let wsc = env.wsc_bytes().to_vec();
-        // (a) encoded form: header fields + payload
-        let n = encoded.len();
-        (0..n).into_par_iter().for_each(|pos| {
-            for &bit in bits {
-                cx.r.eval(1);
-                let fault = format!("envelope-{name}-encoded-byte-flip");
-                match WscStoreEnvelope::decode(&flip(&encoded, pos, bit)) {
-                    Err(e) => cx.outcome(profile, &fault, &format!("decode-Err:{}", err_kind(&e))),
+    let name = X::names()[ei];
+    let env = export.env(ei).clone();
+    let encoded = env.encode();
+    let wsc = env.wsc_bytes().to_vec();
+    cx.counter(&format!("wsc/envelope_bytes_flipped/{}/{name}", profile.name()), (encoded.len() + wsc.len()) as u64);
+    // (a) encoded form: header fields + payload
+    for pos in 0..encoded.len() {
+        for &bit in bits {
+            let kind = format!("envelope-{name}-encoded-byte-flip");
+            cx.fault(
+                profile,
+                &kind,
+                Oracle::ErrOrSame,
+                json!({"kind": kind, "profile": profile.name(), "envelope": name, "pos": pos, "bit": bit}),
+                || match WscStoreEnvelope::decode(&flip(&encoded, pos, bit)) {
+                    Err(e) => Got::Stage(format!("decode-Err:{}", err_kind(&e))),
                     Ok(e2) => {
                         let mut x = export.clone();
                         x.set_env(ei, e2);
-                        match validate(&x) {
-                            Verdict::Err(k) => cx.outcome(profile, &fault, &format!("import-Err:{k}")),
-                            Verdict::Same => cx.outcome(profile, &fault, "import-Ok-identical"),
-                            Verdict::Different(d) => {
-                                cx.outcome(profile, &fault, "import-Ok-DIFFERENT");
-                                cx.violation(
-                                    format!("wsc:{}:envelope-{name}-encoded-byte-flip-import-ok-with-different-records", profile.name()),
-                                    json!({"kind": fault, "profile": profile.name(), "envelope": name, "pos": pos, "bit": bit}),
-                                    json!(d),
-                                );
-                            }
-                        }
+                        Got::Import(validate(&x))
                     }
-                }
-            }
-        });
-        // (b) WSC payload with a recomputed envelope digest
-        (0..wsc.len()).into_par_iter().for_each(|pos| {
-            for &bit in bits {
-                cx.r.eval(1);
-                let fault = format!("envelope-{name}-rewrapped-byte-flip");
-                match WscStoreEnvelope::validated(env.record_kind(), *env.basis_digest(), flip(&wsc, pos, bit)) {
-                    Err(e) => cx.outcome(profile, &fault, &format!("rewrap-Err:{}", err_kind(&e))),
-                    Ok(e2) => {
-                        let mut x = export.clone();
-                        x.set_env(ei, e2);
-                        match validate(&x) {
-                            Verdict::Err(k) => cx.outcome(profile, &fault, &format!("import-Err:{k}")),
-                            Verdict::Same => cx.outcome(profile, &fault, "import-Ok-identical"),
-                            Verdict::Different(d) => {
-                                cx.outcome(profile, &fault, "import-Ok-DIFFERENT");
-                                cx.violation(
-                                    format!("wsc:{}:envelope-{name}-rewrapped-byte-flip-import-ok-with-different-records", profile.name()),
-                                    json!({"kind": fault, "profile": profile.name(), "envelope": name, "pos": pos, "bit": bit}),
-                                    json!(d),
-                                );
-                            }
-                        }
-                    }
-                }
-            }
-        });
-    }
-}
-
-/// A blob-level fault (withheld / corrupted referenced material) must be refused.
-fn must_refuse(cx: &Ctx, profile: Profile, fault_kind: &str, fault: Value, v: Verdict) {
-    cx.r.eval(1);
-    match v {
-        Verdict::Err(k) => {
-            cx.r.counter(&format!("wsc-refused/{}/{fault_kind}", profile.name()), 1);
-            cx.outcome(profile, fault_kind, &format!("Err:{k}"))
+                },
+            );
         }
-        Verdict::Same | Verdict::Different(_) => {
-            let how = if matches!(v, Verdict::Same) { "identical-import" } else { "different-import" };
-            cx.outcome(profile, fault_kind, &format!("ACCEPTED-{how}"));
-            cx.violation(
-                format!("wsc:{}:{fault_kind}-accepted", profile.name()),
-                fault,
-                json!(match v {
-                    Verdict::Different(d) => format!("import Ok with different content: {d}"),
-                    _ => "import Ok, equal to the honest import although the material is missing/corrupt".to_string(),
-                }),
+    }
+    // (b) WSC payload with a recomputed envelope digest
+    for pos in 0..wsc.len() {
+        for &bit in bits {
+            let kind = format!("envelope-{name}-rewrapped-byte-flip");
+            cx.fault(
+                profile,
+                &kind,
+                Oracle::ErrOrSame,
+                json!({"kind": kind, "profile": profile.name(), "envelope": name, "pos": pos, "bit": bit}),
+                || match WscStoreEnvelope::validated(env.record_kind(), *env.basis_digest(), flip(&wsc, pos, bit)) {
+                    Err(e) => Got::Stage(format!("rewrap-Err:{}", err_kind(&e))),
+                    Ok(e2) => {
+                        let mut x = export.clone();
+                        x.set_env(ei, e2);
+                        Got::Import(validate(&x))
+                    }
+                },
             );
         }
     }
 }
 
-// ───────────────────────────── one history ─────────────────────────────
+/// A blob-level fault (withheld / corrupted referenced material) must be refused.
+fn must_refuse(cx: &Ctx, profile: Profile, fault_kind: &str, fault: Value, f: impl FnOnce() -> Got) {
+    cx.fault(profile, fault_kind, Oracle::MustRefuse, fault, f);
+}
 
-pub struct Bounds {
-    /// bits flipped per byte
+// ───────────────────────────── units (run in child processes) ─────────────────────────────
+
+#[derive(Clone, Copy, Debug, PartialEq, Eq)]
+pub enum Part {
+    /// honest round trip, withheld material, (optionally) every byte of every blob flipped
+    Main,
+    /// every byte of envelope #n flipped
+    Envelope(usize),
+}
+
+#[derive(Clone, Debug)]
+pub struct Unit {
+    pub hist_index: usize,
+    pub history: History,
+    pub profile: Profile,
+    pub part: Part,
     pub bits: Vec<u8>,
-    /// flip every byte of every blob/segment for this history
     pub blob_flips: bool,
-    /// flip every byte of every envelope for this history
-    pub envelope_flips: bool,
+}
+
+impl Unit {
+    fn to_env(&self, skip: &BTreeSet<u64>) -> String {
+        json!({
+            "history": self.history.render(),
+            "profile": self.profile.name(),
+            "part": match self.part { Part::Main => -1i64, Part::Envelope(n) => n as i64 },
+            "bits": self.bits,
+            "blob_flips": self.blob_flips,
+            "skip": skip,
+        })
+        .to_string()
+    }
+    fn describe(&self) -> String {
+        format!("{} / {} / {:?}", self.history.render(), self.profile.name(), self.part)
+    }
 }
 
 fn check_equal_records(
@@ -843,11 +959,9 @@ fn check_equal_records(
     mats: &[RetainedMaterialRecord],
     reads: &[ReadingRefRecord],
     root_identity: Hash,
-) -> bool {
-    let mut ok = true;
-    let mut cmp = |field: &str, got: Vec<String>, want: Vec<String>| {
+) {
+    let cmp = |field: &str, got: Vec<String>, want: Vec<String>| {
         if got != want {
-            ok = false;
             cx.violation(
                 format!("wsc:{}:roundtrip-records-differ:{field}", profile.name()),
                 json!({"kind": "honest-roundtrip", "profile": profile.name()}),
@@ -865,249 +979,246 @@ fn check_equal_records(
         vec![mc::hex(&root_identity)],
         vec![mc::hex(&b.root.identity_digest())],
     );
-    ok
 }
 
-pub struct HistoryOutcome {
-    pub sample: Value,
-    pub exports_ok: u32,
-    pub segment_bytes: usize,
+fn roundtrip_failed<E: std::fmt::Debug>(cx: &Ctx, p: Profile, e: &E) {
+    cx.outcome(p, "honest-roundtrip", "IMPORT-FAILED");
+    cx.violation(
+        format!("wsc:{}:roundtrip-import-failed", p.name()),
+        json!({"kind": "honest-roundtrip", "profile": p.name()}),
+        json!(format!("{e:?}")),
+    );
 }
 
-pub fn check_history(
-    r: &Report,
-    wit: &Witnesses,
-    hist_index: usize,
-    b: &Built,
-    bounds: &Bounds,
-    scratch: &Path,
-) -> HistoryOutcome {
-    let cx = Ctx {
-        r,
-        wit,
-        hist_index,
-        hist: b.history.render(),
+/// Body of a child process: one unit, sequential.
+fn run_unit(cx: &Ctx, b: &Built, u: &Unit, scratch: &Path) {
+    let only_env = match u.part {
+        Part::Main => None,
+        Part::Envelope(n) => Some(n),
     };
-    let mut exports_ok = 0;
-    let mut sample = json!({"history": cx.hist, "segments": b.segments.iter().map(|(id, s)| json!({"id": id.as_u64(), "bytes": s.len()})).collect::<Vec<_>>(),
-        "records": {"accepted": b.acceptances.len(), "receipts": b.receipts.len(), "retained_materials": b.materials.len(), "readings": b.readings.len()}});
-    let bits = &bounds.bits;
-
-    // ── ref-only ─────────────────────────────────────────────────────────────────────────────
-    r.eval(1);
-    match wsc_ref_only_wal_export(&b.root, b.records()) {
-        Err(e) => cx.outcome(Profile::RefOnly, "honest-export", &format!("export-Err:{}", err_kind(&e))),
-        Ok(export) => match validate_wsc_ref_only_wal_export(&export, &b.root) {
-            Err(e) => {
-                cx.outcome(Profile::RefOnly, "honest-roundtrip", "IMPORT-FAILED");
-                cx.violation(
-                    "wsc:ref-only:roundtrip-import-failed".into(),
-                    json!({"kind": "honest-roundtrip", "profile": "ref-only"}),
-                    json!(format!("{e:?}")),
-                );
-            }
-            Ok(honest) => {
-                exports_ok += 1;
-                cx.outcome(Profile::RefOnly, "honest-roundtrip", "Ok-equal-records");
-                check_equal_records(
-                    &cx,
-                    Profile::RefOnly,
-                    b,
-                    &honest.accepted_submissions,
-                    &honest.receipts,
-                    &honest.correlations,
-                    &honest.retention.materials,
-                    &honest.retention.readings,
-                    honest.root_identity_digest,
-                );
-                ref_only_faults(&cx, b, &export, &honest, bounds);
-            }
-        },
-    }
-
-    // ── self-contained ───────────────────────────────────────────────────────────────────────
-    r.eval(1);
-    match wsc_self_contained_wal_export(&b.root, &b.segment_materials(), &b.payloads, b.records()) {
-        Err(e) => cx.outcome(Profile::SelfContained, "honest-export", &format!("export-Err:{}", err_kind(&e))),
-        Ok(export) => match validate_wsc_self_contained_wal_export(&export, &b.root) {
-            Err(e) => {
-                cx.outcome(Profile::SelfContained, "honest-roundtrip", "IMPORT-FAILED");
-                cx.violation(
-                    "wsc:self-contained:roundtrip-import-failed".into(),
-                    json!({"kind": "honest-roundtrip", "profile": "self-contained"}),
-                    json!(format!("{e:?}")),
-                );
-            }
-            Ok(honest) => {
-                exports_ok += 1;
-                cx.outcome(Profile::SelfContained, "honest-roundtrip", "Ok-equal-records");
-                let ok = check_equal_records(
-                    &cx,
-                    Profile::SelfContained,
-                    b,
-                    &honest.accepted_submissions,
-                    &honest.receipts,
-                    &honest.correlations,
-                    &honest.retention.materials,
-                    &honest.retention.readings,
-                    honest.root_identity_digest,
-                );
-                if sorted_debug(&honest.retained_payloads) != sorted_debug(&b.payloads) && ok {
-                    cx.violation(
-                        "wsc:self-contained:roundtrip-records-differ:retained_payloads".into(),
-                        json!({"kind": "honest-roundtrip", "profile": "self-contained"}),
-                        json!({"imported": sorted_debug(&honest.retained_payloads), "source": sorted_debug(&b.payloads)}),
-                    );
+    cx.tally.borrow_mut().sample = json!({
+        "history": cx.hist,
+        "segments": b.segments.iter().map(|(id, s)| json!({"id": id.as_u64(), "bytes": s.len()})).collect::<Vec<_>>(),
+        "records": {"accepted": b.acceptances.len(), "receipts": b.receipts.len(), "correlations": b.correlations.len(),
+                    "retained_materials": b.materials.len(), "readings": b.readings.len(),
+                    "retained_payload_bytes": b.payloads.iter().map(|p| p.material_bytes.len()).collect::<Vec<_>>()},
+    });
+    cx.eval(1);
+    match u.profile {
+        // ── ref-only ─────────────────────────────────────────────────────────────────────────
+        Profile::RefOnly => match wsc_ref_only_wal_export(&b.root, b.records()) {
+            Err(e) => cx.outcome(u.profile, "honest-export", &format!("export-Err:{}", err_kind(&e))),
+            Ok(export) => match validate_wsc_ref_only_wal_export(&export, &b.root) {
+                Err(e) => roundtrip_failed(cx, u.profile, &e),
+                Ok(honest) => {
+                    if only_env.is_none() {
+                        cx.tally.borrow_mut().exports_ok += 1;
+                        cx.outcome(u.profile, "honest-roundtrip", "Ok-equal-records");
+                        check_equal_records(
+                            cx,
+                            u.profile,
+                            b,
+                            &honest.accepted_submissions,
+                            &honest.receipts,
+                            &honest.correlations,
+                            &honest.retention.materials,
+                            &honest.retention.readings,
+                            honest.root_identity_digest,
+                        );
+                    }
+                    ref_only_faults(cx, b, &export, &honest, u, only_env);
                 }
-                let seg_got: Vec<(u64, Hash, usize)> = honest
-                    .segment_recoveries
-                    .iter()
-                    .map(|s| (s.segment_id.as_u64(), s.segment_digest, s.report.transactions.len()))
-                    .collect();
-                let seg_want: Vec<(u64, Hash)> =
-                    b.root.segments.iter().map(|s| (s.segment_id.as_u64(), s.segment_digest)).collect();
-                let total_tx: usize = seg_got.iter().map(|x| x.2).sum();
-                if seg_got.iter().map(|x| (x.0, x.1)).collect::<Vec<_>>() != seg_want || total_tx != b.history.txs.len() {
-                    cx.violation(
-                        "wsc:self-contained:roundtrip-records-differ:segment_recoveries".into(),
-                        json!({"kind": "honest-roundtrip", "profile": "self-contained"}),
-                        json!(format!("{seg_got:?} vs {seg_want:?}; txs {total_tx} vs {}", b.history.txs.len())),
-                    );
-                }
-                sample["self_contained_envelope_bytes"] = json!(WscSelfContainedWalExport::names()
-                    .iter()
-                    .enumerate()
-                    .map(|(i, n)| (n.to_string(), export.env(i).encode().len()))
-                    .collect::<BTreeMap<_, _>>());
-                self_contained_faults(&cx, b, &export, &honest, bounds);
-            }
+            },
         },
-    }
-
-    // ── CAS-addressed ────────────────────────────────────────────────────────────────────────
-    // The CAS is the real MemoryTier (segments by `put`, retained payloads through the real
-    // RetainedBlobIndex, as the repository's tests do) and, in parallel, a real DiskTier.
-    let mut mem = MemoryTier::new();
-    let disk_dir = scratch.join(format!("cas-{hist_index}"));
-    let _ = std::fs::remove_dir_all(&disk_dir);
-    let disk = match DiskTier::open(&disk_dir) {
-        Ok(d) => d,
-        Err(e) => {
-            r.machinery_error(&format!("wsc: DiskTier::open: {e}"));
-            return HistoryOutcome { sample, exports_ok, segment_bytes: 0 };
+        // ── self-contained ───────────────────────────────────────────────────────────────────
+        Profile::SelfContained => {
+            match wsc_self_contained_wal_export(&b.root, &b.segment_materials(), &b.payloads, b.records()) {
+                Err(e) => cx.outcome(u.profile, "honest-export", &format!("export-Err:{}", err_kind(&e))),
+                Ok(export) => match validate_wsc_self_contained_wal_export(&export, &b.root) {
+                    Err(e) => roundtrip_failed(cx, u.profile, &e),
+                    Ok(honest) => {
+                        if only_env.is_none() {
+                            cx.tally.borrow_mut().exports_ok += 1;
+                            cx.outcome(u.profile, "honest-roundtrip", "Ok-equal-records");
+                            check_equal_records(
+                                cx,
+                                u.profile,
+                                b,
+                                &honest.accepted_submissions,
+                                &honest.receipts,
+                                &honest.correlations,
+                                &honest.retention.materials,
+                                &honest.retention.readings,
+                                honest.root_identity_digest,
+                            );
+                            if sorted_debug(&honest.retained_payloads) != sorted_debug(&b.payloads) {
+                                cx.violation(
+                                    "wsc:self-contained:roundtrip-records-differ:retained_payloads".into(),
+                                    json!({"kind": "honest-roundtrip", "profile": "self-contained"}),
+                                    json!({"imported": sorted_debug(&honest.retained_payloads), "source": sorted_debug(&b.payloads)}),
+                                );
+                            }
+                            let seg_got: Vec<(u64, Hash, usize)> = honest
+                                .segment_recoveries
+                                .iter()
+                                .map(|s| (s.segment_id.as_u64(), s.segment_digest, s.report.transactions.len()))
+                                .collect();
+                            let seg_want: Vec<(u64, Hash)> =
+                                b.root.segments.iter().map(|s| (s.segment_id.as_u64(), s.segment_digest)).collect();
+                            let total_tx: usize = seg_got.iter().map(|x| x.2).sum();
+                            if seg_got.iter().map(|x| (x.0, x.1)).collect::<Vec<_>>() != seg_want
+                                || total_tx != b.history.txs.len()
+                            {
+                                cx.violation(
+                                    "wsc:self-contained:roundtrip-records-differ:segment_recoveries".into(),
+                                    json!({"kind": "honest-roundtrip", "profile": "self-contained"}),
+                                    json!(format!("{seg_got:?} vs {seg_want:?}; txs {total_tx} vs {}", b.history.txs.len())),
+                                );
+                            }
+                            let sizes: BTreeMap<String, usize> = WscSelfContainedWalExport::names()
+                                .iter()
+                                .enumerate()
+                                .map(|(i, n)| (n.to_string(), export.env(i).encode().len()))
+                                .collect();
+                            cx.tally.borrow_mut().sample["self_contained_envelope_bytes"] = json!(sizes);
+                        }
+                        self_contained_faults(cx, b, &export, &honest, u, only_env);
+                    }
+                },
+            }
         }
-    };
-    let mut index = RetainedBlobIndex::default();
-    let mut seg_refs = Vec::new();
-    let mut blobs: Vec<(String, Hash, Vec<u8>)> = Vec::new(); // (what, content hash, bytes)
-    for (id, bytes) in &b.segments {
-        let h = *mem.put(bytes).as_bytes();
-        let _ = disk.put(bytes);
-        seg_refs.push(WscCasAddressedWalSegmentMaterial {
-            segment_id: *id,
-            content_hash: h,
-            semantic_coordinate_digest: digest(&format!("c20:segment:{}", id.as_u64())),
-            byte_len: bytes.len() as u64,
-        });
-        blobs.push((format!("segment-{}", id.as_u64()), h, bytes.clone()));
-    }
-    let mut ret_refs = Vec::new();
-    for m in &b.materials {
-        let bytes = b
-            .payloads
-            .iter()
-            .find(|p| p.material.material_digest == m.material_digest)
-            .map(|p| p.material_bytes.clone())
-            .unwrap_or_default();
-        let coordinate = SemanticBlobCoordinate {
-            namespace: "echo:verif-c20-wsc".to_owned(),
-            schema_hash_hex: "00".repeat(32),
-            artifact_hash_hex: "11".repeat(32),
-            role: RetainedBlobRole::ReadingPayload,
-            semantic_digest: m.semantic_coordinate_digest,
-        };
-        match index.retain(&mut mem, coordinate, &bytes) {
-            Ok(d) => {
-                let _ = disk.put(&bytes);
-                ret_refs.push(WscCasAddressedRetainedMaterialReference {
-                    material_kind: m.kind,
-                    content_hash: *d.content_hash.as_bytes(),
-                    semantic_coordinate_digest: d.coordinate.semantic_digest,
-                    byte_len: d.byte_len,
+        // ── CAS-addressed ────────────────────────────────────────────────────────────────────
+        // The CAS is the real MemoryTier (segments by `put`, retained payloads through the real
+        // RetainedBlobIndex, as the repository's tests do) and, in parallel, a real DiskTier.
+        Profile::CasAddressed => {
+            let mut mem = MemoryTier::new();
+            let disk_dir = scratch.join("cas");
+            let _ = std::fs::remove_dir_all(&disk_dir);
+            let disk = match DiskTier::open(&disk_dir) {
+                Ok(d) => d,
+                Err(e) => {
+                    cx.machinery(&format!("DiskTier::open: {e}"));
+                    return;
+                }
+            };
+            let mut index = RetainedBlobIndex::default();
+            let mut seg_refs = Vec::new();
+            let mut blobs: Vec<(String, Hash, Vec<u8>)> = Vec::new(); // (what, content hash, bytes)
+            for (id, bytes) in &b.segments {
+                let h = *mem.put(bytes).as_bytes();
+                if disk.put(bytes).is_err() {
+                    cx.machinery("DiskTier::put failed");
+                }
+                seg_refs.push(WscCasAddressedWalSegmentMaterial {
+                    segment_id: *id,
+                    content_hash: h,
+                    semantic_coordinate_digest: digest(&format!("c20:segment:{}", id.as_u64())),
+                    byte_len: bytes.len() as u64,
                 });
-                if !blobs.iter().any(|x| x.1 == *d.content_hash.as_bytes()) {
-                    blobs.push((format!("retained-{}", mc::hex(&m.semantic_coordinate_digest[..3])), *d.content_hash.as_bytes(), bytes));
+                blobs.push((format!("segment-{}", id.as_u64()), h, bytes.clone()));
+            }
+            let mut ret_refs = Vec::new();
+            for m in &b.materials {
+                let bytes = b
+                    .payloads
+                    .iter()
+                    .find(|p| p.material.material_digest == m.material_digest)
+                    .map(|p| p.material_bytes.clone())
+                    .unwrap_or_default();
+                let coordinate = SemanticBlobCoordinate {
+                    namespace: "echo:verif-c20-wsc".to_owned(),
+                    schema_hash_hex: "00".repeat(32),
+                    artifact_hash_hex: "11".repeat(32),
+                    role: RetainedBlobRole::ReadingPayload,
+                    semantic_digest: m.semantic_coordinate_digest,
+                };
+                match index.retain(&mut mem, coordinate, &bytes) {
+                    Ok(d) => {
+                        let _ = disk.put(&bytes);
+                        ret_refs.push(WscCasAddressedRetainedMaterialReference {
+                            material_kind: m.kind,
+                            content_hash: *d.content_hash.as_bytes(),
+                            semantic_coordinate_digest: d.coordinate.semantic_digest,
+                            byte_len: d.byte_len,
+                        });
+                        if !blobs.iter().any(|x| x.1 == *d.content_hash.as_bytes()) {
+                            blobs.push((
+                                format!("retained-{}", mc::hex(&m.semantic_coordinate_digest[..3])),
+                                *d.content_hash.as_bytes(),
+                                bytes,
+                            ));
+                        }
+                    }
+                    // equal coordinate + different content: refused by the semantic index (typed)
+                    Err(e) => cx.outcome(u.profile, "retain-into-cas", &format!("Err:{}", err_kind(&e))),
                 }
             }
-            Err(e) => {
-                // equal coordinate + different content: refused by the semantic index (typed)
-                cx.outcome(Profile::CasAddressed, "retain-into-cas", &format!("Err:{}", err_kind(&e)));
+            match wsc_cas_addressed_wal_export(&b.root, &seg_refs, &ret_refs, b.records()) {
+                Err(e) => cx.outcome(u.profile, "honest-export", &format!("export-Err:{}", err_kind(&e))),
+                Ok(export) => {
+                    let via_mem = validate_wsc_cas_addressed_wal_export(&export, &b.root, &MemPort(&mem));
+                    let via_disk = validate_wsc_cas_addressed_wal_export(&export, &b.root, &DiskPort(&disk));
+                    match (via_mem, via_disk) {
+                        (Ok(honest), Ok(h2)) => {
+                            if only_env.is_none() {
+                                cx.tally.borrow_mut().exports_ok += 1;
+                                cx.outcome(u.profile, "honest-roundtrip", "Ok-equal-records");
+                                if honest != h2 {
+                                    cx.violation(
+                                        "wsc:cas-addressed:import-differs-between-memory-and-disk-cas".into(),
+                                        json!({"kind": "honest-roundtrip", "profile": "cas-addressed"}),
+                                        json!("imports differ"),
+                                    );
+                                }
+                                check_equal_records(
+                                    cx,
+                                    u.profile,
+                                    b,
+                                    &honest.accepted_submissions,
+                                    &honest.receipts,
+                                    &honest.correlations,
+                                    &honest.retention.materials,
+                                    &honest.retention.readings,
+                                    honest.root_identity_digest,
+                                );
+                                if sorted_debug(&honest.cas_references.retained_materials) != sorted_debug(&ret_refs) {
+                                    cx.violation(
+                                        "wsc:cas-addressed:roundtrip-records-differ:cas_references".into(),
+                                        json!({"kind": "honest-roundtrip", "profile": "cas-addressed"}),
+                                        json!({"imported": sorted_debug(&honest.cas_references.retained_materials), "source": sorted_debug(&ret_refs)}),
+                                    );
+                                }
+                            }
+                            cas_faults(cx, b, &export, &honest, &seg_refs, &ret_refs, &blobs, &disk, &disk_dir, u, only_env);
+                        }
+                        (a, d) => roundtrip_failed(
+                            cx,
+                            u.profile,
+                            &format!("memory: {:?} / disk: {:?}", a.err().map(|e| err_kind(&e)), d.err().map(|e| err_kind(&e))),
+                        ),
+                    }
+                }
             }
         }
-    }
-    r.eval(1);
-    match wsc_cas_addressed_wal_export(&b.root, &seg_refs, &ret_refs, b.records()) {
-        Err(e) => cx.outcome(Profile::CasAddressed, "honest-export", &format!("export-Err:{}", err_kind(&e))),
-        Ok(export) => {
-            let via_mem = validate_wsc_cas_addressed_wal_export(&export, &b.root, &MemPort(&mem));
-            let via_disk = validate_wsc_cas_addressed_wal_export(&export, &b.root, &DiskPort(&disk));
-            match (via_mem, via_disk) {
-                (Ok(honest), Ok(h2)) => {
-                    exports_ok += 1;
-                    cx.outcome(Profile::CasAddressed, "honest-roundtrip", "Ok-equal-records");
-                    if honest != h2 {
-                        cx.violation(
-                            "wsc:cas-addressed:import-differs-between-memory-and-disk-cas".into(),
-                            json!({"kind": "honest-roundtrip", "profile": "cas-addressed"}),
-                            json!("imports differ"),
-                        );
-                    }
-                    check_equal_records(
-                        &cx,
-                        Profile::CasAddressed,
-                        b,
-                        &honest.accepted_submissions,
-                        &honest.receipts,
-                        &honest.correlations,
-                        &honest.retention.materials,
-                        &honest.retention.readings,
-                        honest.root_identity_digest,
-                    );
-                    if sorted_debug(&honest.cas_references.retained_materials) != sorted_debug(&ret_refs) {
-                        cx.violation(
-                            "wsc:cas-addressed:roundtrip-records-differ:cas_references".into(),
-                            json!({"kind": "honest-roundtrip", "profile": "cas-addressed"}),
-                            json!({"imported": sorted_debug(&honest.cas_references.retained_materials), "source": sorted_debug(&ret_refs)}),
-                        );
-                    }
-                    cas_faults(&cx, b, &export, &honest, &seg_refs, &ret_refs, &blobs, &disk, &disk_dir, bounds);
-                }
-                (a, d) => {
-                    cx.outcome(Profile::CasAddressed, "honest-roundtrip", "IMPORT-FAILED");
-                    cx.violation(
-                        "wsc:cas-addressed:roundtrip-import-failed".into(),
-                        json!({"kind": "honest-roundtrip", "profile": "cas-addressed"}),
-                        json!(format!("memory: {:?} / disk: {:?}", a.err().map(|e| err_kind(&e)), d.err().map(|e| err_kind(&e)))),
-                    );
-                }
-            }
-        }
-    }
-    drop(disk);
-    let _ = std::fs::remove_dir_all(&disk_dir);
-    let _ = bits;
-    HistoryOutcome {
-        sample,
-        exports_ok,
-        segment_bytes: b.segments.iter().map(|s| s.1.len()).sum(),
     }
 }
 
 // ───────────────────────────── ref-only faults ─────────────────────────────
 
-fn ref_only_faults(cx: &Ctx, b: &Built, export: &WscRefOnlyWalExport, honest: &WscRefOnlyWalImport, bounds: &Bounds) {
+fn ref_only_faults(
+    cx: &Ctx,
+    b: &Built,
+    export: &WscRefOnlyWalExport,
+    honest: &WscRefOnlyWalImport,
+    u: &Unit,
+    only_env: Option<usize>,
+) {
     let p = Profile::RefOnly;
     let validate = |x: &WscRefOnlyWalExport| verdict(validate_wsc_ref_only_wal_export(x, &b.root), honest);
+    if let Some(ei) = only_env {
+        envelope_flips(cx, p, export, ei, &u.bits, &validate);
+        return;
+    }
     // every field of every external segment dependency altered individually
     for (i, dep) in export.segment_dependencies.iter().enumerate() {
         let mut variants: Vec<(&str, warp_core::wsc::WscRefOnlyWalSegmentDependency)> = Vec::new();
@@ -1142,7 +1253,7 @@ fn ref_only_faults(cx: &Ctx, b: &Built, export: &WscRefOnlyWalExport, honest: &W
                 p,
                 "altered-segment-dependency",
                 json!({"kind": "altered-segment-dependency", "profile": p.name(), "dependency": i, "field": field}),
-                validate(&x),
+                || Got::Import(validate(&x)),
             );
         }
         // dependency withheld
@@ -1153,11 +1264,8 @@ fn ref_only_faults(cx: &Ctx, b: &Built, export: &WscRefOnlyWalExport, honest: &W
             p,
             "withheld-segment-dependency",
             json!({"kind": "withheld-segment-dependency", "profile": p.name(), "dependency": i}),
-            validate(&x),
+            || Got::Import(validate(&x)),
         );
-    }
-    if bounds.envelope_flips {
-        envelope_flips(cx, p, export, &bounds.bits, &validate);
     }
 }
 
@@ -1210,52 +1318,62 @@ fn self_contained_faults(
     b: &Built,
     export: &WscSelfContainedWalExport,
     honest: &WscSelfContainedWalImport,
-    bounds: &Bounds,
+    u: &Unit,
+    only_env: Option<usize>,
 ) {
     let p = Profile::SelfContained;
     let validate =
         |x: &WscSelfContainedWalExport| verdict(validate_wsc_self_contained_wal_export(x, &b.root), honest);
+    if let Some(ei) = only_env {
+        envelope_flips(cx, p, export, ei, &u.bits, &validate);
+        return;
+    }
+    let empty = WscWalCausalHistoryRecords::empty;
 
     // sanity of the forging recipe: the honest envelopes must carry the basis we compute
     let seg_basis_ok = *export.segment_material_envelope.basis_digest() == forged_segment_basis(&b.segments);
     let ret_basis_ok = *export.retained_material_envelope.basis_digest() == forged_retained_basis(&b.payloads);
-    cx.r.guard("wsc_forging_recipe_matches_honest_basis_digests", seg_basis_ok && ret_basis_ok);
+    cx.guard("wsc_forging_recipe_matches_honest_basis_digests", seg_basis_ok && ret_basis_ok);
 
     // ── each embedded segment withheld ──
     for (si, (id, _)) in b.segments.iter().enumerate() {
         let fault = json!({"kind": "withheld-embedded-segment", "profile": p.name(), "segment": id.as_u64()});
-        // (i) the real exporter asked to leave it out
-        cx.r.eval(1);
         let mut fewer = b.segment_materials();
         fewer.remove(si);
-        match wsc_self_contained_wal_export(&b.root, &fewer, &b.payloads, b.records()) {
-            Err(e) => cx.outcome(p, "withheld-embedded-segment@export", &format!("export-Err:{}", err_kind(&e))),
-            Ok(x) => must_refuse(cx, p, "withheld-embedded-segment", fault.clone(), validate(&x)),
-        }
+        // (i) the real exporter asked to leave it out
+        must_refuse(cx, p, "withheld-embedded-segment", fault.clone(), || {
+            match wsc_self_contained_wal_export(&b.root, &fewer, &b.payloads, b.records()) {
+                Err(e) => Got::Stage(format!("export-Err:{}", err_kind(&e))),
+                Ok(x) => Got::Import(validate(&x)),
+            }
+        });
         // (ii) a well-formed segment envelope that lacks it (built by the real exporter for the root
         //      without that segment) spliced into the honest export
         let mut sub_root = b.root.clone();
         sub_root.segments.retain(|s| s.segment_id != *id);
-        match wsc_self_contained_wal_export(&sub_root, &fewer, &[], WscWalCausalHistoryRecords::empty()) {
-            Err(e) => cx.r.machinery_error(&format!("wsc: sub-root export failed: {}", err_kind(&e))),
-            Ok(sub) => {
-                let mut x = export.clone();
-                x.segment_material_envelope = sub.segment_material_envelope;
-                must_refuse(cx, p, "withheld-embedded-segment", fault, validate(&x));
+        must_refuse(cx, p, "withheld-embedded-segment", fault, || {
+            match wsc_self_contained_wal_export(&sub_root, &fewer, &[], empty()) {
+                Err(e) => Got::Machinery(format!("sub-root export failed: {}", err_kind(&e))),
+                Ok(sub) => {
+                    let mut x = export.clone();
+                    x.segment_material_envelope = sub.segment_material_envelope;
+                    Got::Import(validate(&x))
+                }
             }
-        }
+        });
     }
 
     // ── each embedded retained payload withheld ──
     for (pi, pay) in b.payloads.iter().enumerate() {
         let fault = json!({"kind": "withheld-embedded-retained-payload", "profile": p.name(), "material": mc::hex(&pay.material.material_digest[..4])});
-        cx.r.eval(1);
         let mut fewer = b.payloads.clone();
         fewer.remove(pi);
-        match wsc_self_contained_wal_export(&b.root, &b.segment_materials(), &fewer, b.records()) {
-            Err(e) => cx.outcome(p, "withheld-embedded-retained-payload@export", &format!("export-Err:{}", err_kind(&e))),
-            Ok(x) => must_refuse(cx, p, "withheld-embedded-retained-payload", fault.clone(), validate(&x)),
-        }
+        must_refuse(cx, p, "withheld-embedded-retained-payload", fault.clone(), || {
+            match wsc_self_contained_wal_export(&b.root, &b.segment_materials(), &fewer, b.records()) {
+                Err(e) => Got::Stage(format!("export-Err:{}", err_kind(&e))),
+                Ok(x) => Got::Import(validate(&x)),
+            }
+        });
         // well-formed retained envelope lacking it: exporter run on the record set without the
         // material, spliced into the honest export (whose retention records still name it)
         let mats: Vec<RetainedMaterialRecord> = b
@@ -1264,148 +1382,149 @@ fn self_contained_faults(
             .copied()
             .filter(|m| m.material_digest != pay.material.material_digest)
             .collect();
-        let recs = WscWalCausalHistoryRecords {
-            retained_materials: &mats,
-            ..WscWalCausalHistoryRecords::empty()
-        };
-        match wsc_self_contained_wal_export(&b.root, &b.segment_materials(), &fewer, recs) {
-            Err(e) => cx.r.machinery_error(&format!("wsc: reduced retained export failed: {}", err_kind(&e))),
-            Ok(sub) => {
-                let mut x = export.clone();
-                x.retained_material_envelope = sub.retained_material_envelope;
-                must_refuse(cx, p, "withheld-embedded-retained-payload", fault, validate(&x));
+        must_refuse(cx, p, "withheld-embedded-retained-payload", fault, || {
+            let recs = WscWalCausalHistoryRecords {
+                retained_materials: &mats,
+                ..empty()
+            };
+            match wsc_self_contained_wal_export(&b.root, &b.segment_materials(), &fewer, recs) {
+                Err(e) => Got::Machinery(format!("reduced retained export failed: {}", err_kind(&e))),
+                Ok(sub) => {
+                    let mut x = export.clone();
+                    x.retained_material_envelope = sub.retained_material_envelope;
+                    Got::Import(validate(&x))
+                }
             }
-        }
+        });
     }
 
-    if bounds.blob_flips {
-        // ── every byte of every embedded segment flipped ──
-        let seg_wsc = export.segment_material_envelope.wsc_bytes().to_vec();
-        for (si, (id, bytes)) in b.segments.iter().enumerate() {
-            let off = find_sub(&seg_wsc, bytes);
-            if off.is_none() {
-                cx.r.machinery_error("wsc: embedded segment bytes not found (uniquely) in the segment envelope");
-            }
-            (0..bytes.len()).into_par_iter().for_each(|pos| {
-                for &bit in &bounds.bits {
-                    let fault = json!({"kind": "corrupt-embedded-segment", "profile": p.name(), "segment": id.as_u64(), "pos": pos, "bit": bit});
-                    let tampered = flip(bytes, pos, bit);
-                    // (i) through the real exporter (it embeds whatever bytes it is given)
+    if !u.blob_flips {
+        return;
+    }
+    // ── every byte of every embedded segment flipped ──
+    let seg_wsc = export.segment_material_envelope.wsc_bytes().to_vec();
+    for (si, (id, bytes)) in b.segments.iter().enumerate() {
+        let off = find_sub(&seg_wsc, bytes);
+        if off.is_none() {
+            cx.machinery("embedded segment bytes not found (uniquely) in the segment envelope");
+        }
+        cx.counter("wsc/segment_bytes_flipped", bytes.len() as u64);
+        for pos in 0..bytes.len() {
+            for &bit in &u.bits {
+                let fault = json!({"kind": "corrupt-embedded-segment", "profile": p.name(), "segment": id.as_u64(), "pos": pos, "bit": bit});
+                let tampered = flip(bytes, pos, bit);
+                // (i) through the real exporter (it embeds whatever bytes it is given)
+                must_refuse(cx, p, "corrupt-embedded-segment-via-exporter", fault.clone(), || {
                     let mut mats = b.segment_materials();
                     mats[si].segment_bytes = tampered.clone();
-                    match wsc_self_contained_wal_export(&b.root, &mats, &[], WscWalCausalHistoryRecords::empty()) {
-                        Err(e) => {
-                            cx.r.eval(1);
-                            cx.outcome(p, "corrupt-embedded-segment-via-exporter@export", &format!("export-Err:{}", err_kind(&e)));
-                        }
+                    match wsc_self_contained_wal_export(&b.root, &mats, &[], empty()) {
+                        Err(e) => Got::Stage(format!("export-Err:{}", err_kind(&e))),
                         Ok(t) => {
                             let mut x = export.clone();
                             x.segment_material_envelope = t.segment_material_envelope;
-                            must_refuse(cx, p, "corrupt-embedded-segment-via-exporter", fault.clone(), validate(&x));
+                            Got::Import(validate(&x))
                         }
                     }
-                    // (ii) forged envelope: byte flipped inside the WSC payload, envelope digest and
-                    //      basis digest recomputed by the attacker
-                    if let Some(off) = off {
+                });
+                // (ii) forged envelope: byte flipped inside the WSC payload, envelope digest and
+                //      basis digest recomputed by the attacker
+                if let Some(off) = off {
+                    must_refuse(cx, p, "corrupt-embedded-segment-forged-envelope", fault, || {
                         let mut segs = b.segments.clone();
-                        segs[si].1 = tampered;
+                        segs[si].1 = tampered.clone();
                         match WscStoreEnvelope::validated(
                             export.segment_material_envelope.record_kind(),
                             forged_segment_basis(&segs),
                             flip(&seg_wsc, off + pos, bit),
                         ) {
-                            Err(e) => {
-                                cx.r.eval(1);
-                                cx.outcome(p, "corrupt-embedded-segment-forged-envelope", &format!("rewrap-Err:{}", err_kind(&e)));
-                            }
+                            Err(e) => Got::Stage(format!("rewrap-Err:{}", err_kind(&e))),
                             Ok(env) => {
                                 let mut x = export.clone();
                                 x.segment_material_envelope = env;
-                                must_refuse(cx, p, "corrupt-embedded-segment-forged-envelope", fault, validate(&x));
+                                Got::Import(validate(&x))
                             }
                         }
-                    }
+                    });
                 }
-            });
-            // truncations of the embedded segment (every prefix is a crash image of the file)
-            (0..bytes.len()).into_par_iter().for_each(|len| {
-                let fault = json!({"kind": "truncated-embedded-segment", "profile": p.name(), "segment": id.as_u64(), "len": len});
+            }
+        }
+        // truncations of the embedded segment (every proper prefix is a crash image of the file)
+        for len in 0..bytes.len() {
+            let fault = json!({"kind": "truncated-embedded-segment", "profile": p.name(), "segment": id.as_u64(), "len": len});
+            must_refuse(cx, p, "truncated-embedded-segment", fault, || {
                 let mut mats = b.segment_materials();
                 mats[si].segment_bytes.truncate(len);
-                match wsc_self_contained_wal_export(&b.root, &mats, &[], WscWalCausalHistoryRecords::empty()) {
-                    Err(e) => {
-                        cx.r.eval(1);
-                        cx.outcome(p, "truncated-embedded-segment@export", &format!("export-Err:{}", err_kind(&e)));
-                    }
+                match wsc_self_contained_wal_export(&b.root, &mats, &[], empty()) {
+                    Err(e) => Got::Stage(format!("export-Err:{}", err_kind(&e))),
                     Ok(t) => {
                         let mut x = export.clone();
                         x.segment_material_envelope = t.segment_material_envelope;
-                        must_refuse(cx, p, "truncated-embedded-segment", fault, validate(&x));
+                        Got::Import(validate(&x))
                     }
                 }
             });
         }
+    }
 
-        // ── every byte of every embedded retained payload flipped ──
-        let ret_wsc = export.retained_material_envelope.wsc_bytes().to_vec();
-        for (pi, pay) in b.payloads.iter().enumerate() {
-            let off = find_sub(&ret_wsc, &pay.material_bytes);
-            if off.is_none() {
-                cx.r.machinery_error("wsc: embedded retained payload not found (uniquely) in the retained envelope");
-            }
-            for pos in 0..pay.material_bytes.len() {
-                for &bit in &bounds.bits {
-                    let fault = json!({"kind": "corrupt-embedded-retained-payload", "profile": p.name(), "material": mc::hex(&pay.material.material_digest[..4]), "pos": pos, "bit": bit});
-                    let tampered = flip(&pay.material_bytes, pos, bit);
-                    // (i) the real exporter given tampered bytes under the honest record
-                    cx.r.eval(1);
-                    let mut pays = b.payloads.clone();
-                    pays[pi].material_bytes = tampered.clone();
+    // ── every byte of every embedded retained payload flipped ──
+    let ret_wsc = export.retained_material_envelope.wsc_bytes().to_vec();
+    for (pi, pay) in b.payloads.iter().enumerate() {
+        let off = find_sub(&ret_wsc, &pay.material_bytes);
+        if off.is_none() {
+            cx.machinery("embedded retained payload not found (uniquely) in the retained envelope");
+        }
+        cx.counter("wsc/retained_payload_bytes_flipped", pay.material_bytes.len() as u64);
+        for pos in 0..pay.material_bytes.len() {
+            for &bit in &u.bits {
+                let fault = json!({"kind": "corrupt-embedded-retained-payload", "profile": p.name(), "material": mc::hex(&pay.material.material_digest[..4]), "pos": pos, "bit": bit});
+                let tampered = flip(&pay.material_bytes, pos, bit);
+                let mut pays = b.payloads.clone();
+                pays[pi].material_bytes = tampered.clone();
+                // (i) the real exporter given tampered bytes under the honest record
+                must_refuse(cx, p, "corrupt-embedded-retained-payload-via-exporter", fault.clone(), || {
                     match wsc_self_contained_wal_export(&b.root, &b.segment_materials(), &pays, b.records()) {
-                        Err(e) => cx.outcome(p, "corrupt-embedded-retained-payload-via-exporter@export", &format!("export-Err:{}", err_kind(&e))),
-                        Ok(x) => must_refuse(cx, p, "corrupt-embedded-retained-payload-via-exporter", fault.clone(), validate(&x)),
+                        Err(e) => Got::Stage(format!("export-Err:{}", err_kind(&e))),
+                        Ok(x) => Got::Import(validate(&x)),
                     }
-                    // (ii) substitution: a well-formed envelope for the tampered bytes (record
-                    //      re-addressed to their hash) spliced into the honest export
+                });
+                // (ii) substitution: a well-formed envelope for the tampered bytes (record
+                //      re-addressed to their hash) spliced into the honest export
+                must_refuse(cx, p, "corrupt-embedded-retained-payload-substituted", fault.clone(), || {
                     let mut lie = pays.clone();
                     lie[pi].material.material_digest = blake3::hash(&tampered).into();
                     let lie_mats: Vec<RetainedMaterialRecord> = lie.iter().map(|m| m.material).collect();
                     let recs = WscWalCausalHistoryRecords {
                         retained_materials: &lie_mats,
-                        ..WscWalCausalHistoryRecords::empty()
+                        ..empty()
                     };
                     match wsc_self_contained_wal_export(&b.root, &b.segment_materials(), &lie, recs) {
-                        Err(e) => cx.r.machinery_error(&format!("wsc: substitution export failed: {}", err_kind(&e))),
+                        Err(e) => Got::Machinery(format!("substitution export failed: {}", err_kind(&e))),
                         Ok(sub) => {
                             let mut x = export.clone();
                             x.retained_material_envelope = sub.retained_material_envelope;
-                            must_refuse(cx, p, "corrupt-embedded-retained-payload-substituted", fault.clone(), validate(&x));
+                            Got::Import(validate(&x))
                         }
                     }
-                    // (iii) forged envelope: honest record, tampered bytes, digests recomputed
-                    if let Some(off) = off {
+                });
+                // (iii) forged envelope: honest record, tampered bytes, digests recomputed
+                if let Some(off) = off {
+                    must_refuse(cx, p, "corrupt-embedded-retained-payload-forged-envelope", fault, || {
                         match WscStoreEnvelope::validated(
                             export.retained_material_envelope.record_kind(),
                             forged_retained_basis(&pays),
                             flip(&ret_wsc, off + pos, bit),
                         ) {
-                            Err(e) => {
-                                cx.r.eval(1);
-                                cx.outcome(p, "corrupt-embedded-retained-payload-forged-envelope", &format!("rewrap-Err:{}", err_kind(&e)));
-                            }
+                            Err(e) => Got::Stage(format!("rewrap-Err:{}", err_kind(&e))),
                             Ok(env) => {
                                 let mut x = export.clone();
                                 x.retained_material_envelope = env;
-                                must_refuse(cx, p, "corrupt-embedded-retained-payload-forged-envelope", fault, validate(&x));
+                                Got::Import(validate(&x))
                             }
                         }
-                    }
+                    });
                 }
             }
         }
-    }
-    if bounds.envelope_flips {
-        envelope_flips(cx, p, export, &bounds.bits, &validate);
     }
 }
 
@@ -1422,13 +1541,20 @@ fn cas_faults(
     blobs: &[(String, Hash, Vec<u8>)],
     disk: &DiskTier,
     disk_dir: &Path,
-    bounds: &Bounds,
+    u: &Unit,
+    only_env: Option<usize>,
 ) {
     let p = Profile::CasAddressed;
     let full: BTreeMap<Hash, Vec<u8>> = blobs.iter().map(|(_, h, b)| (*h, b.clone())).collect();
     let validate_with = |x: &WscCasAddressedWalExport, port: &dyn WscCasBlobStorePort| {
         verdict(validate_wsc_cas_addressed_wal_export(x, &b.root, port), honest)
     };
+    if let Some(ei) = only_env {
+        let port = MapPort(full.clone());
+        let validate = |x: &WscCasAddressedWalExport| validate_with(x, &port);
+        envelope_flips(cx, p, export, ei, &u.bits, &validate);
+        return;
+    }
     let blob_path = |h: &Hash| -> PathBuf {
         let hex = mc::hex(h);
         disk_dir.join("blobs").join(&hex[..2]).join(hex)
@@ -1443,12 +1569,16 @@ fn cas_faults(
                 other.put(b2);
             }
         }
-        must_refuse(cx, p, "withheld-cas-blob-memory-tier", fault.clone(), validate_with(export, &MemPort(&other)));
+        must_refuse(cx, p, "withheld-cas-blob-memory-tier", fault.clone(), || {
+            Got::Import(validate_with(export, &MemPort(&other)))
+        });
         let path = blob_path(h);
         if std::fs::remove_file(&path).is_err() {
-            cx.r.machinery_error("wsc: blob file to withhold not found in DiskTier");
+            cx.machinery("blob file to withhold not found in DiskTier");
         }
-        must_refuse(cx, p, "withheld-cas-blob-disk-tier", fault, validate_with(export, &DiskPort(disk)));
+        must_refuse(cx, p, "withheld-cas-blob-disk-tier", fault, || {
+            Got::Import(validate_with(export, &DiskPort(disk)))
+        });
         let _ = disk.put(bytes);
 
         // ── length lie in the reference ──
@@ -1466,89 +1596,327 @@ fn cas_faults(
                     s.byte_len = (s.byte_len as i64 + delta) as u64;
                 }
             }
-            cx.r.eval(1);
-            match wsc_cas_addressed_wal_export(&b.root, &s2, &r2, b.records()) {
-                Err(e) => cx.outcome(p, "cas-reference-length-lie@export", &format!("export-Err:{}", err_kind(&e))),
-                Ok(x) => must_refuse(cx, p, "cas-reference-length-lie", fault, validate_with(&x, &MapPort(full.clone()))),
-            }
+            must_refuse(cx, p, "cas-reference-length-lie", fault, || {
+                match wsc_cas_addressed_wal_export(&b.root, &s2, &r2, b.records()) {
+                    Err(e) => Got::Stage(format!("export-Err:{}", err_kind(&e))),
+                    Ok(x) => Got::Import(validate_with(&x, &MapPort(full.clone()))),
+                }
+            });
         }
 
-        if !bounds.blob_flips {
+        if !u.blob_flips {
             continue;
         }
+        cx.counter("wsc/cas_blob_bytes_flipped", bytes.len() as u64);
         let is_segment = seg_refs.iter().any(|s| s.content_hash == *h);
-        (0..bytes.len()).into_par_iter().for_each(|pos| {
-            for &bit in &bounds.bits {
+        for pos in 0..bytes.len() {
+            for &bit in &u.bits {
                 let fault = json!({"kind": "corrupt-cas-blob", "profile": p.name(), "blob": what, "pos": pos, "bit": bit});
                 let tampered = flip(bytes, pos, bit);
                 // (i) a CAS that answers the honest hash with tampered bytes
-                let mut lying = full.clone();
-                lying.insert(*h, tampered.clone());
-                must_refuse(cx, p, "corrupt-cas-blob-lying-store", fault.clone(), validate_with(export, &MapPort(lying)));
+                must_refuse(cx, p, "corrupt-cas-blob-lying-store", fault.clone(), || {
+                    let mut lying = full.clone();
+                    lying.insert(*h, tampered.clone());
+                    Got::Import(validate_with(export, &MapPort(lying)))
+                });
                 // (ii) consistent lie: the reference names hash(tampered) and the CAS holds the
                 //      tampered bytes under it
-                let th: Hash = blake3::hash(&tampered).into();
-                let mut s2 = seg_refs.to_vec();
-                let mut r2 = ret_refs.to_vec();
-                for s in &mut s2 {
-                    if s.content_hash == *h {
-                        s.content_hash = th;
+                must_refuse(cx, p, "corrupt-cas-blob-consistent-lie", fault, || {
+                    let th: Hash = blake3::hash(&tampered).into();
+                    let mut s2 = seg_refs.to_vec();
+                    let mut r2 = ret_refs.to_vec();
+                    for s in &mut s2 {
+                        if s.content_hash == *h {
+                            s.content_hash = th;
+                        }
                     }
-                }
-                for s in &mut r2 {
-                    if s.content_hash == *h {
-                        s.content_hash = th;
+                    for s in &mut r2 {
+                        if s.content_hash == *h {
+                            s.content_hash = th;
+                        }
                     }
-                }
-                let recs = if is_segment { WscWalCausalHistoryRecords::empty() } else { b.records() };
-                let (s2u, r2u): (&[_], &[_]) = if is_segment { (&s2, &[]) } else { (&s2, &r2) };
-                match wsc_cas_addressed_wal_export(&b.root, s2u, r2u, recs) {
-                    Err(e) => {
-                        cx.r.eval(1);
-                        cx.outcome(p, "corrupt-cas-blob-consistent-lie@export", &format!("export-Err:{}", err_kind(&e)));
+                    let res = if is_segment {
+                        wsc_cas_addressed_wal_export(&b.root, &s2, &[], WscWalCausalHistoryRecords::empty())
+                    } else {
+                        wsc_cas_addressed_wal_export(&b.root, &s2, &r2, b.records())
+                    };
+                    match res {
+                        Err(e) => Got::Stage(format!("export-Err:{}", err_kind(&e))),
+                        Ok(t) => {
+                            let mut x = export.clone();
+                            x.cas_reference_envelope = t.cas_reference_envelope;
+                            let mut store = full.clone();
+                            store.insert(th, tampered.clone());
+                            Got::Import(validate_with(&x, &MapPort(store)))
+                        }
                     }
-                    Ok(t) => {
-                        let mut x = export.clone();
-                        x.cas_reference_envelope = t.cas_reference_envelope;
-                        let mut store = full.clone();
-                        store.insert(th, tampered);
-                        must_refuse(cx, p, "corrupt-cas-blob-consistent-lie", fault, validate_with(&x, &MapPort(store)));
-                    }
-                }
+                });
             }
-        });
-        // (iii) the DiskTier file itself damaged, every byte (sequential: one file)
+        }
+        // (iii) the DiskTier file itself damaged, every byte
         let path = blob_path(h);
         for pos in 0..bytes.len() {
-            let fault = json!({"kind": "corrupt-cas-blob", "profile": p.name(), "blob": what, "pos": pos, "bit": 0, "via": "disk-tier-file"});
-            if std::fs::write(&path, flip(bytes, pos, bounds.bits[pos % bounds.bits.len()])).is_err() {
-                cx.r.machinery_error("wsc: cannot damage DiskTier blob file");
+            let bit = u.bits[pos % u.bits.len()];
+            let fault = json!({"kind": "corrupt-cas-blob", "profile": p.name(), "blob": what, "pos": pos, "bit": bit, "via": "disk-tier-file"});
+            if std::fs::write(&path, flip(bytes, pos, bit)).is_err() {
+                cx.machinery("cannot damage DiskTier blob file");
             }
-            must_refuse(cx, p, "corrupt-cas-blob-disk-tier-file", fault, validate_with(export, &DiskPort(disk)));
+            must_refuse(cx, p, "corrupt-cas-blob-disk-tier-file", fault, || {
+                Got::Import(validate_with(export, &DiskPort(disk)))
+            });
         }
-        // truncated / extended file
-        for (how, data) in [("truncated", bytes[..bytes.len().saturating_sub(1)].to_vec()), ("extended", [bytes.as_slice(), &[0u8]].concat())] {
-            let fault = json!({"kind": "corrupt-cas-blob", "profile": p.name(), "blob": what, "via": format!("disk-tier-file-{how}")});
+        // truncated / extended
+        for (how, data) in [
+            ("truncated", bytes[..bytes.len().saturating_sub(1)].to_vec()),
+            ("extended", [bytes.as_slice(), &[0u8]].concat()),
+        ] {
+            let fault = json!({"kind": "corrupt-cas-blob", "profile": p.name(), "blob": what, "via": how});
             let _ = std::fs::write(&path, &data);
-            must_refuse(cx, p, "corrupt-cas-blob-disk-tier-file", fault.clone(), validate_with(export, &DiskPort(disk)));
-            let mut lying = full.clone();
-            lying.insert(*h, data);
-            must_refuse(cx, p, "corrupt-cas-blob-lying-store", fault, validate_with(export, &MapPort(lying)));
+            must_refuse(cx, p, "corrupt-cas-blob-disk-tier-file", fault.clone(), || {
+                Got::Import(validate_with(export, &DiskPort(disk)))
+            });
+            must_refuse(cx, p, "corrupt-cas-blob-lying-store", fault, || {
+                let mut lying = full.clone();
+                lying.insert(*h, data.clone());
+                Got::Import(validate_with(export, &MapPort(lying)))
+            });
         }
         let _ = disk.put(bytes);
         match disk.get(&BlobHash::from_bytes(*h)) {
             Ok(Some(_)) => {}
-            _ => cx.r.machinery_error("wsc: DiskTier blob not restored after damage"),
+            _ => cx.machinery("DiskTier blob not restored after damage"),
         }
-    }
-    if bounds.envelope_flips {
-        let port = MapPort(full.clone());
-        let validate = |x: &WscCasAddressedWalExport| validate_with(x, &port);
-        envelope_flips(cx, p, export, &bounds.bits, &validate);
     }
 }
 
+// ───────────────────────────── child entry point ─────────────────────────────
+
+fn profile_from(s: &str) -> Option<Profile> {
+    [Profile::RefOnly, Profile::SelfContained, Profile::CasAddressed]
+        .into_iter()
+        .find(|p| p.name() == s)
+}
+
+/// `C20_UNIT=<json>`: run one unit sequentially, print `B` lines and the final `R` line.
+pub fn child_main(spec: &str) -> ! {
+    // address-space limit: an allocation sized from a corrupted count fails deterministically
+    // instead of depending on the host's overcommit policy
+    let lim = libc::rlimit {
+        rlim_cur: 3 << 30,
+        rlim_max: 3 << 30,
+    };
+    // SAFETY: plain syscall with a valid pointer to a local struct.
+    unsafe {
+        libc::setrlimit(libc::RLIMIT_AS, &lim);
+    }
+    let v: Value = serde_json::from_str(spec).unwrap_or(Value::Null);
+    let history = v.get("history").and_then(|x| x.as_str()).and_then(History::parse);
+    let profile = v.get("profile").and_then(|x| x.as_str()).and_then(profile_from);
+    let (Some(history), Some(profile)) = (history, profile) else {
+        println!("R\t{}", json!({"machinery": ["child: bad unit spec"]}));
+        std::process::exit(0);
+    };
+    let part = match v.get("part").and_then(|x| x.as_i64()).unwrap_or(-1) {
+        n if n < 0 => Part::Main,
+        n => Part::Envelope(n as usize),
+    };
+    let u = Unit {
+        hist_index: 0,
+        history: history.clone(),
+        profile,
+        part,
+        bits: v
+            .get("bits")
+            .and_then(|x| x.as_array())
+            .map(|a| a.iter().filter_map(|b| b.as_u64()).map(|b| b as u8).collect())
+            .unwrap_or_else(|| vec![0]),
+        blob_flips: v.get("blob_flips").and_then(|x| x.as_bool()).unwrap_or(false),
+    };
+    let skip: BTreeSet<u64> = v
+        .get("skip")
+        .and_then(|x| x.as_array())
+        .map(|a| a.iter().filter_map(|b| b.as_u64()).collect())
+        .unwrap_or_default();
+    let cx = Ctx {
+        hist: history.render(),
+        skip,
+        seq: Cell::new(0),
+        tally: RefCell::new(Tally::default()),
+    };
+    let scratch = mc::scratch_root();
+    match build(&history, &scratch.join("wal")) {
+        Err(e) => cx.machinery(&format!("cannot build history: {e}")),
+        Ok(b) => {
+            if let Err(p) = mc::catch(|| run_unit(&cx, &b, &u, &scratch)) {
+                cx.machinery(&format!("panic in unit: {p}"));
+            }
+        }
+    }
+    let t = cx.tally.into_inner();
+    println!(
+        "R\t{}",
+        json!({
+            "evals": t.evals, "outcomes": t.outcomes, "counters": t.counters,
+            "violations": t.violations.iter().map(|(s, o, d)| json!({"sig": s, "order": o, "detail": d})).collect::<Vec<_>>(),
+            "machinery": t.machinery, "guards": t.guards, "sample": t.sample, "exports_ok": t.exports_ok,
+            "faults": cx.seq.get(),
+        })
+    );
+    let _ = std::fs::remove_dir_all(&scratch);
+    std::process::exit(0);
+}
+
+// ───────────────────────────── parent: drive the children ─────────────────────────────
+
+struct UnitResult {
+    summary: Value,
+    /// (profile, kind, fault json, reason) for every fault that killed a child
+    deaths: Vec<(String, String, Value, String)>,
+    error: Option<String>,
+}
+
+fn run_child(u: &Unit, idx: usize) -> UnitResult {
+    use std::os::unix::process::ExitStatusExt;
+    let mut skip: BTreeSet<u64> = BTreeSet::new();
+    let mut deaths = Vec::new();
+    let exe = match std::env::current_exe() {
+        Ok(e) => e,
+        Err(e) => {
+            return UnitResult { summary: Value::Null, deaths, error: Some(format!("current_exe: {e}")) }
+        }
+    };
+    for _attempt in 0..48 {
+        let scratch = mc::scratch_root().join("c20-wsc-children").join(format!("u{idx}"));
+        let out = std::process::Command::new(&exe)
+            .env("C20_UNIT", u.to_env(&skip))
+            .env("VERIF_SCRATCH", &scratch)
+            .env("RAYON_NUM_THREADS", "1")
+            .stdin(std::process::Stdio::null())
+            .output();
+        let _ = std::fs::remove_dir_all(&scratch);
+        let out = match out {
+            Ok(o) => o,
+            Err(e) => return UnitResult { summary: Value::Null, deaths, error: Some(format!("spawn: {e}")) },
+        };
+        let stdout = String::from_utf8_lossy(&out.stdout);
+        if let Some(line) = stdout.lines().rev().find(|l| l.starts_with("R\t")) {
+            if out.status.success() {
+                let summary = serde_json::from_str(&line[2..]).unwrap_or(Value::Null);
+                return UnitResult { summary, deaths, error: None };
+            }
+        }
+        // the child died: the last announced fault was in flight
+        let Some(last) = stdout.lines().rev().find(|l| l.starts_with("B\t")) else {
+            let err = String::from_utf8_lossy(&out.stderr);
+            return UnitResult {
+                summary: Value::Null,
+                deaths,
+                error: Some(format!(
+                    "child died before any fault ({:?}): {}",
+                    out.status,
+                    err.lines().last().unwrap_or("")
+                )),
+            };
+        };
+        let f: Vec<&str> = last.splitn(5, '\t').collect();
+        let seq = f.get(1).and_then(|x| x.parse::<u64>().ok()).unwrap_or(u64::MAX);
+        let stderr = String::from_utf8_lossy(&out.stderr);
+        let reason = if stderr.contains("memory allocation of") {
+            "memory-allocation-failed".to_string()
+        } else if stderr.contains("stack overflow") {
+            "stack-overflow".to_string()
+        } else if stderr.contains("capacity overflow") {
+            "capacity-overflow".to_string()
+        } else {
+            match out.status.signal() {
+                Some(s) => format!("signal-{s}"),
+                None => format!("exit-{}", out.status.code().unwrap_or(-1)),
+            }
+        };
+        deaths.push((
+            f.get(2).unwrap_or(&"?").to_string(),
+            f.get(3).unwrap_or(&"?").to_string(),
+            f.get(4).and_then(|x| serde_json::from_str(x).ok()).unwrap_or(Value::Null),
+            format!("{reason}: {}", stderr.lines().last().unwrap_or("").trim()),
+        ));
+        if !skip.insert(seq) {
+            return UnitResult { summary: Value::Null, deaths, error: Some("child died twice on the same fault".into()) };
+        }
+    }
+    UnitResult { summary: Value::Null, deaths, error: Some("too many child deaths in one unit".into()) }
+}
+
+fn merge(r: &Report, wit: &Witnesses, u: &Unit, res: &UnitResult, samples: &mut Vec<Value>) -> u64 {
+    for (profile, kind, fault, reason) in &res.deaths {
+        r.eval(1);
+        r.outcome(&format!("wsc/{profile}/{kind}→PROCESS-ABORTED"));
+        let sig = if reason.starts_with("memory-allocation-failed") || reason.starts_with("capacity-overflow") {
+            format!("wsc:{profile}:{kind}-unbounded-allocation:aborts-process")
+        } else {
+            format!("wsc:{profile}:{kind}-aborts-process:{}", reason.split(':').next().unwrap_or("?"))
+        };
+        wit.add_keyed(
+            sig,
+            (u.hist_index as u64, format!("{fault}")),
+            json!({
+                "case": {"part": "wsc", "history": u.history.render(), "fault": fault},
+                "observed": format!("the importing process died instead of returning a typed error — {reason} (child under RLIMIT_AS = 3 GiB)"),
+            }),
+        );
+    }
+    if let Some(e) = &res.error {
+        r.machinery_error(&format!("wsc unit [{}]: {e}", u.describe()));
+        return 0;
+    }
+    let s = &res.summary;
+    r.eval(s.get("evals").and_then(|x| x.as_u64()).unwrap_or(0));
+    if let Some(m) = s.get("outcomes").and_then(|x| x.as_object()) {
+        for (k, v) in m {
+            r.outcome_n(k, v.as_u64().unwrap_or(0));
+        }
+    }
+    if let Some(m) = s.get("counters").and_then(|x| x.as_object()) {
+        for (k, v) in m {
+            r.counter(k, v.as_u64().unwrap_or(0));
+        }
+    }
+    if let Some(m) = s.get("guards").and_then(|x| x.as_object()) {
+        for (k, v) in m {
+            r.guard(k, v.as_bool().unwrap_or(false));
+        }
+    }
+    if let Some(a) = s.get("machinery").and_then(|x| x.as_array()) {
+        for m in a {
+            r.machinery_error(m.as_str().unwrap_or("?"));
+        }
+    }
+    if let Some(a) = s.get("violations").and_then(|x| x.as_array()) {
+        for v in a {
+            wit.add_keyed(
+                v.get("sig").and_then(|x| x.as_str()).unwrap_or("?").to_string(),
+                (u.hist_index as u64, v.get("order").and_then(|x| x.as_str()).unwrap_or("").to_string()),
+                v.get("detail").cloned().unwrap_or(Value::Null),
+            );
+        }
+    }
+    let ok = s.get("exports_ok").and_then(|x| x.as_u64()).unwrap_or(0);
+    if ok > 0 && u.part == Part::Main && u.profile == Profile::SelfContained && u.history.txs.len() == 3 {
+        if let Some(x) = s.get("sample") {
+            samples.push(x.clone());
+        }
+    }
+    ok
+}
+
 // ───────────────────────────── driver ─────────────────────────────
+
+fn env_count(p: Profile) -> usize {
+    match p {
+        Profile::RefOnly => WscRefOnlyWalExport::names().len(),
+        Profile::SelfContained => WscSelfContainedWalExport::names().len(),
+        Profile::CasAddressed => WscCasAddressedWalExport::names().len(),
+    }
+}
 
 pub fn run(r: &Report, wit: &Witnesses) {
     let scratch = mc::scratch_root().join("c20-wsc");
@@ -1571,7 +1939,7 @@ pub fn run(r: &Report, wit: &Witnesses) {
     };
     let fam = family(&alphabet, 3);
     let bits: Vec<u8> = if r.quick() { vec![0] } else { (0..8).collect() };
-    // the designated rich history for envelope flips in quick: 2 segments, all three kinds
+    // the designated rich history: 2 segments, all three transaction kinds
     let rich = History {
         txs: vec![Tx::Sub(0), Tx::Tick(0), Tx::Read(0)],
         rotate_after: vec![0],
@@ -1579,10 +1947,12 @@ pub fn run(r: &Report, wit: &Witnesses) {
     r.note(
         "wsc_family",
         json!({"alphabet": alphabet.iter().map(|t| t.render()).collect::<Vec<_>>(), "max_len": 3, "histories": fam.len(),
-               "bits_per_byte": bits.len()}),
+               "bits_flipped_per_byte": bits.len(),
+               "blob_byte_flips_on": if r.quick() { "histories of length ≤2 and the rich history 'Sa |rotate| Ta Rx'" } else { "all histories" },
+               "envelope_byte_flips_on": if r.quick() { "the rich history" } else { "histories of length ≤2 and the rich history (1 bit per byte; all 8 bits on the rich history)" }}),
     );
 
-    // build every history with the real WAL store
+    // build every history with the real WAL store (in-process: honest material only)
     let built: Vec<Result<Built, String>> = fam
         .par_iter()
         .enumerate()
@@ -1597,36 +1967,68 @@ pub fn run(r: &Report, wit: &Witnesses) {
     }
     r.counter("wsc/histories_built", ok.len() as u64);
 
-    let outs: Vec<HistoryOutcome> = ok
-        .par_iter()
-        .map(|(i, b)| {
-            let len = b.history.txs.len();
-            let bounds = Bounds {
+    // units
+    let mut units: Vec<Unit> = Vec::new();
+    for (i, b) in &ok {
+        let len = b.history.txs.len();
+        let is_rich = b.history == rich;
+        for p in [Profile::RefOnly, Profile::SelfContained, Profile::CasAddressed] {
+            units.push(Unit {
+                hist_index: *i,
+                history: b.history.clone(),
+                profile: p,
+                part: Part::Main,
                 bits: bits.clone(),
-                blob_flips: if r.quick() { len <= 2 || b.history == rich } else { true },
-                envelope_flips: if r.quick() { b.history == rich } else { len <= 2 || b.history == rich },
-            };
-            if r.over_budget_frac(0.9) {
-                r.cap_hit(&format!("wsc: history '{}' skipped by wall cap", b.history.render()));
-                return HistoryOutcome { sample: json!(null), exports_ok: 0, segment_bytes: 0 };
+                blob_flips: if r.quick() { len <= 2 || is_rich } else { true },
+            });
+            let env_flips = if r.quick() { is_rich } else { len <= 2 || is_rich };
+            if env_flips {
+                for ei in 0..env_count(p) {
+                    units.push(Unit {
+                        hist_index: *i,
+                        history: b.history.clone(),
+                        profile: p,
+                        part: Part::Envelope(ei),
+                        bits: if is_rich { bits.clone() } else { vec![0] },
+                        blob_flips: false,
+                    });
+                }
             }
-            let o = check_history(r, wit, *i, b, &bounds, &scratch);
-            r.nontrivial(format!("wsc-history:{}", b.history.render()).as_bytes());
-            o
+        }
+    }
+    r.counter("wsc/units_run_in_child_processes", units.len() as u64);
+    let results: Vec<Option<UnitResult>> = units
+        .par_iter()
+        .enumerate()
+        .map(|(idx, u)| {
+            if r.over_budget_frac(0.85) {
+                return None;
+            }
+            Some(run_child(u, idx))
         })
         .collect();
     let mut exports = 0u64;
-    let mut sampled = 0;
-    for o in &outs {
-        exports += u64::from(o.exports_ok);
-        if o.exports_ok == 3 && sampled < 3 && o.segment_bytes > 0 {
-            r.sample(o.sample.clone());
-            sampled += 1;
+    let mut samples = Vec::new();
+    let mut skipped = 0u64;
+    for (u, res) in units.iter().zip(results.iter()) {
+        match res {
+            Some(res) => {
+                exports += merge(r, wit, u, res, &mut samples);
+                r.nontrivial(format!("wsc-unit:{}", u.describe()).as_bytes());
+            }
+            None => skipped += 1,
         }
+    }
+    if skipped > 0 {
+        r.cap_hit(&format!("wsc: {skipped} of {} units not run (wall cap)", units.len()));
+    }
+    for s in samples.into_iter().take(2) {
+        r.sample(s);
     }
     r.counter("wsc/honest_roundtrips_ok", exports);
 
     // ── an export of history A is never accepted against the root of history B ──
+    // (honest material only, so this runs in-process)
     let exports: Vec<_> = ok
         .iter()
         .map(|(_, b)| {
@@ -1641,38 +2043,33 @@ pub fn run(r: &Report, wit: &Witnesses) {
         .filter(|(a, b)| a != b && ok[*a].1.root.identity_digest() != ok[*b].1.root.identity_digest())
         .collect();
     pairs.par_iter().for_each(|(a, bidx)| {
-        let cx = Ctx {
-            r,
-            wit,
-            hist_index: ok[*a].0,
-            hist: ok[*a].1.history.render(),
-        };
         let other = &ok[*bidx].1;
+        let viol = |profile: &str| {
+            wit.add_keyed(
+                format!("wsc:{profile}:foreign-root-accepted"),
+                (ok[*a].0 as u64, other.history.render()),
+                json!({"case": {"part": "wsc", "history": ok[*a].1.history.render(),
+                       "fault": {"kind": "foreign-root", "profile": profile, "other_history": other.history.render()}},
+                       "observed": "Ok"}),
+            );
+        };
         if let Some(x) = &exports[*a].0 {
             r.eval(1);
             match validate_wsc_ref_only_wal_export(x, &other.root) {
-                Err(e) => cx.outcome(Profile::RefOnly, "foreign-root", &format!("Err:{}", err_kind(&e))),
+                Err(e) => r.outcome(&format!("wsc/ref-only/foreign-root→import-Err:{}", err_kind(&e))),
                 Ok(_) => {
-                    cx.outcome(Profile::RefOnly, "foreign-root", "ACCEPTED");
-                    cx.violation(
-                        "wsc:ref-only:foreign-root-accepted".into(),
-                        json!({"kind": "foreign-root", "profile": "ref-only", "other_history": other.history.render()}),
-                        json!("Ok"),
-                    );
+                    r.outcome("wsc/ref-only/foreign-root→ACCEPTED");
+                    viol("ref-only");
                 }
             }
         }
         if let Some(x) = &exports[*a].1 {
             r.eval(1);
             match validate_wsc_self_contained_wal_export(x, &other.root) {
-                Err(e) => cx.outcome(Profile::SelfContained, "foreign-root", &format!("Err:{}", err_kind(&e))),
+                Err(e) => r.outcome(&format!("wsc/self-contained/foreign-root→import-Err:{}", err_kind(&e))),
                 Ok(_) => {
-                    cx.outcome(Profile::SelfContained, "foreign-root", "ACCEPTED");
-                    cx.violation(
-                        "wsc:self-contained:foreign-root-accepted".into(),
-                        json!({"kind": "foreign-root", "profile": "self-contained", "other_history": other.history.render()}),
-                        json!("Ok"),
-                    );
+                    r.outcome("wsc/self-contained/foreign-root→ACCEPTED");
+                    viol("self-contained");
                 }
             }
         }
@@ -1680,31 +2077,37 @@ pub fn run(r: &Report, wit: &Witnesses) {
     r.counter("wsc/foreign_root_pairs", pairs.len() as u64);
 }
 
-/// Replay one recorded WSC case: rebuild the history and re-run all of its faults with full bounds.
+/// Replay one recorded WSC case: re-run every unit of its history with full bounds (in children).
 pub fn replay(r: &Report, case: &Value) {
     let Some(h) = case.get("history").and_then(|x| x.as_str()).and_then(History::parse) else {
         r.machinery_error("replay: cannot parse history");
         return;
     };
-    let scratch = mc::scratch_root().join("c20-wsc-replay");
-    let _ = std::fs::create_dir_all(&scratch);
     let wit = Witnesses::default();
-    match build(&h, &scratch.join("wal")) {
-        Err(e) => r.machinery_error(&format!("replay: build failed: {e}")),
-        Ok(b) => {
-            let bounds = Bounds {
-                bits: (0..8).collect(),
-                blob_flips: true,
-                envelope_flips: true,
-            };
-            let o = check_history(r, &wit, 0, &b, &bounds, &scratch);
-            r.sample(o.sample);
-            r.nontrivial(b"replay-1");
-            r.nontrivial(b"replay-2");
-            r.add_states(1);
-            r.add_transitions(1);
-            r.add_traces(1);
+    let only_profile = case
+        .get("fault")
+        .and_then(|f| f.get("profile"))
+        .and_then(|x| x.as_str())
+        .and_then(profile_from);
+    let mut units = Vec::new();
+    for p in [Profile::RefOnly, Profile::SelfContained, Profile::CasAddressed] {
+        if only_profile.is_some_and(|o| o != p) {
+            continue;
+        }
+        units.push(Unit { hist_index: 0, history: h.clone(), profile: p, part: Part::Main, bits: (0..8).collect(), blob_flips: true });
+        for ei in 0..env_count(p) {
+            units.push(Unit { hist_index: 0, history: h.clone(), profile: p, part: Part::Envelope(ei), bits: (0..8).collect(), blob_flips: false });
         }
     }
+    let results: Vec<UnitResult> = units.par_iter().enumerate().map(|(i, u)| run_child(u, i)).collect();
+    let mut samples = Vec::new();
+    for (u, res) in units.iter().zip(results.iter()) {
+        merge(r, &wit, u, res, &mut samples);
+        r.nontrivial(u.describe().as_bytes());
+    }
+    r.sample(json!({"replayed": case}));
+    r.add_states(1);
+    r.add_transitions(1);
+    r.add_traces(1);
     wit.flush(r);
 }
